@@ -16,7 +16,8 @@ TRUSTED = [
     "cairo-lang-runner + cairo-vm as the notion of 'run time', lib/vlib.py",
 ]
 THEOREMS = ["C07_const_eval", "C07_error_iff_panic", "C07_const_bool", "C07_const_cast", "C07_fold_call",
-            "C07_fold_call_int", "C07_fold_call_div_partial", "C07_fold_match", "C07_identity_rewrites"]
+            "C07_fold_call_int", "C07_fold_call_div_partial", "C07_fold_match", "C07_identity_rewrites",
+            "C07_partial_fold_incdec"]
 
 
 def run(ctx):
@@ -95,7 +96,8 @@ def run(ctx):
                 "harness; each case is evaluated as 2 const items (direct, through a const fn) and up to 5 runs "
                 "(operands passed at run time / literal in the body, each with const folding on / off; and, when "
                 "the const evaluated, a function returning the const item = materialisation of the value); the lf "
-                "leg has no const item and runs literal/run-time operand mixes with folding on / off.",
+                "leg has no const item and runs literal/run-time operand mixes with folding on / off; the part leg "
+                "runs f_lit(x) and f_args(x, LIT) with folding on / off.",
         "input_distribution": summary.get("distribution", {}),
         "cases": summary.get("cases_evaluated", 0),
         "const_items_evaluated_by_impl": summary.get("const_items", 0),
@@ -136,6 +138,16 @@ OPERATOR_SET = {
         "bounded_int_div_rem), upcast; is_zero, uN/iN eq (+ rewrite to is_zero), uN_overflowing_add/sub, "
         "iN_overflowing_add/sub_impl, iN_diff (TypeRange::normalized, arm selection, x+0/0+x/x-0), downcast "
         "(known value incl. felt252, range subsumption), bounded_int_constrain, bounded_int_trim_min/max",
+    "partial-constant rewrites (one literal operand, one run-time operand), leg `part`":
+        "every rule of const_folding.rs that looks at one known operand: felt252 x-0, 0+x, x+0, x*0, 0*x, x*1, 1*x, "
+        "x/1, 0/x; wide_mul by 0; div_rem of 0; uN/iN overflowing add/sub with x+-0, 0+x and x+-1 -> "
+        "core::internal::num::T_inc/T_dec (theorems C07_fold_match incl. MIncDec, C07_partial_fold_incdec); "
+        "eq against 0 -> is_zero; downcast range subsumption; plus whatever try_specialize_call specialises. "
+        "Explored for add sub mul div rem and or xor eq ne lt le gt ge and wrapping_/overflowing_/checked_/"
+        "saturating_ add sub mul on all 12 types x literal {0,1,2,-1,MIN,MIN+1,MAX-1,MAX} on either side x "
+        "run-time x in {MIN,MIN+1,-1,0,1,MAX-1,MAX} + seeded: f_lit(x)=op(x,LIT) vs f_args(x,y)=op(x,y) with "
+        "y=LIT at run time, const folding on/off, all four equal and equal to Rt (Corr.check_part). The "
+        "wrapping/overflowing/checked/saturating run-time spec (Rt.rt_variant) is exploration-tied only.",
     "explored by the impl-level oracle only (no Coq model)":
         "u256 -> uN / felt252 TryInto, compound const expressions (tuples, structs, enums, if, match, &&, ||, "
         "let-destructuring) through the evaluator's interpreter, const fn calls",
